@@ -53,8 +53,14 @@ def parseSrc (j : Json) : Except String SrcKind := do
 def parseLevel (j : Json) : Except String Level := do
   let pop := match (j.getObjVal? "pop") with | .ok (Json.bool b) => b | _ => false
   let zU := match (j.getObjVal? "zU") with | .ok (Json.bool b) => b | _ => false
+  let uOps ← (match optField j "uOps" with
+    | none => pure []
+    | some v => do (← asList v).mapM (fun e => do
+        match (← asInts e) with
+        | [x, n] => pure (x.toNat, n.toNat)
+        | _ => throw "C16: uOps"))
   pure { rank := (← fStr j "rank"), src := (← parseSrc (← field j "src")), pop := pop,
-         insertPos := fIntD j "insertPos" 0, zU := zU }
+         insertPos := fIntD j "insertPos" 0, zU := zU, uOps := uOps }
 
 def parseKey (j : Json) : Except String Key := do
   match (← asList j) with
@@ -187,7 +193,8 @@ def handleKernel (j : Json) : Except String Verdict := do
   let tags := dedup (
     (if stagingRows "populate_write_0" then ["inserting:staging-write"] else []) ++
     (if stagingRows "populate_read_0" then ["inserting:move-from-staging"] else []) ++
-    levels.map (fun lv => (if lv.pop then (if lv.zU then "popU+" else "pop+") else "") ++ srcTag lv.src) ++
+    levels.map (fun lv => (if lv.pop then (if lv.zU then "popU+" else "pop+") else "") ++ srcTag lv.src ++
+      (if lv.uOps.isEmpty then "" else "/U")) ++
     [s!"depth{D}"] ++
     (if stt.saved > stt.bumps then ["project-use"] else []) ++
     (if stt.bumps > 0 then ["dest-write"] else []) ++
@@ -237,7 +244,8 @@ def handleKernel (j : Json) : Except String Verdict := do
       | some i =>
         (if fileShapeOK levels i k.2 ls then [] else [s!"shape:{tyFamily k.2}"]) ++
         (if fileAddrOK dflt true levels ops i k.2 ls then [] else
-          (if fileAddrOK dflt false levels ops i k.2 ls then [s!"addr-storage:{tyFamily k.2}"]
+          (if fileAddrOK dflt true levels ops i k.2 ls (fromStamp := true) then [s!"addr-ustale:{tyFamily k.2}"]
+           else if fileAddrOK dflt false levels ops i k.2 ls then [s!"addr-storage:{tyFamily k.2}"]
            else [s!"addr:{tyFamily k.2}"]))) ++
     -- flush independence: all thresholds give the same files
     (implFiles.tail.flatMap (fun e => (e.2.zip first).filterMap (fun f =>
